@@ -165,15 +165,7 @@ def post_op(case, r, res, obs):
     d = judge.Diag(obs.err)
     if d.ok:
         want = [case["op"], names[0], names[1]]
-        idx = 0
-        j = 0
-        for w in want:
-            k = d.msg.find("'" + w + "'", idx)
-            if k < 0:
-                break
-            idx = k + len(w) + 2
-            j += 1
-        if j < 3:
+        if not judge.atoms_in_order(d.msg, want):
             out.append(("C16/op-message/%s" % case["op"], "diagnostic %r does not name operator and operand types %s in order" % (d.msg, want)))
         if set(names) - {"bool", "int", "string", "list", "object", "func", "null"}:
             out.append(("C16/type-names", "->type() printed %s" % names))
@@ -188,7 +180,7 @@ def post_nested(case, r, res, obs):
     if not case["accept"]:
         d = judge.Diag(obs.err)
         lt, rt = TYPE_NAME[case["lk"]], TYPE_NAME[case["rk"]]
-        if d.ok and not ("'%s'" % lt in d.msg and "'%s'" % rt in d.msg):
+        if d.ok and not (judge.atoms_in_order(d.msg, [lt]) and judge.atoms_in_order(d.msg, [rt])):
             return [("C16/nested-message/%s" % case["op"], "diagnostic %r does not name both types (%s, %s)" % (d.msg, lt, rt))]
     return []
 
